@@ -63,3 +63,15 @@ Theorem C05_maximal_schedules_return_every_call : forall B K valid k s s' n, 0 <
   (forall l s'', step B K valid s' l s'' -> is_call l = true) -> forall t, rpc s' t = RIdle.
 Proof. intros B K valid k s s' n HB. exact (ConcTerm.stuck_means_all_returned B K HB valid k s s' n). Qed.
 Print Assumptions C05_maximal_schedules_return_every_call.
+
+(* ---- the link to Layer C (ConcContract.v): every return of every schedule is an answer the wait contract
+   allows, for the digit string "position j exists iff source calls 0..j all returned digits" - so the clients of
+   LayerC / LayerC2 / ViewReads (At, Scan, iterators, FirstN, views), proved against every WaitOK oracle, are proved
+   for the memoizer under every interleaving ---- *)
+Require ConcContract.
+Theorem C05_wait_contract : forall B K valid s t x len ok s', 0 < B -> reach B K valid s ->
+  step B K valid s (LReturn t x len ok) s' -> WaitOK (ConcContract.Dv B K valid) x (len, ok).
+Proof. intros B K valid s t x len ok s' HB. exact (ConcContract.return_is_WaitOK B K HB valid s t x len ok s'). Qed.
+Print Assumptions C05_wait_contract.
+Theorem C05_digit_string_closed : forall B K valid i, 0 < B -> ConcContract.Dv B K valid i = None -> ConcContract.Dv B K valid (S i) = None.
+Proof. intros B K valid i HB. exact (ConcContract.Dv_closed B K HB valid i). Qed.
